@@ -36,12 +36,25 @@ def run(sid):
         if r.returncode != 0:
             return '%-14s patch does not apply to HEAD: %s' % (sid, (r.stderr or r.stdout)[-200:].replace('\n', ' '))
 
-        def one(p):
-            rr = subprocess.run([os.path.join(V, 'check'), p, '--repo', t], capture_output=True, text=True, env=dict(os.environ, VERIF_NO_EVIDENCE='1'))
-            lines = [l.strip() for l in rr.stdout.split('\n') if l.startswith('   C') and ':' in l and 'rule ' not in l[:9]]
-            return p, rr.returncode, lines
-        with ThreadPoolExecutor(max_workers=4) as ex:
-            out = list(ex.map(one, props))
+        if OWN:
+            def one(p):
+                rr = subprocess.run([os.path.join(V, 'check'), p, '--repo', t], capture_output=True, text=True, env=dict(os.environ, VERIF_NO_EVIDENCE='1'))
+                lines = [l.strip() for l in rr.stdout.split('\n') if l.startswith('   C') and ':' in l and 'rule ' not in l[:9]]
+                return p, rr.returncode, lines
+            out = [one(p) for p in props]
+        else:
+            # all properties in one process: modules and the fact base are shared between the checks
+            rr = subprocess.run([os.path.join(V, 'check'), 'ALL', '--repo', t], capture_output=True, text=True, env=dict(os.environ, VERIF_NO_EVIDENCE='1'))
+            out, cur = [], []
+            for l in rr.stdout.split('\n'):
+                if l.startswith('EXIT '):
+                    _, p, rc = l.split()
+                    out.append((p, int(rc), cur))
+                    cur = []
+                elif l.startswith('   C') and ':' in l and 'rule ' not in l[:9]:
+                    cur.append(l.strip())
+            if len(out) != len(props):
+                return '%-14s runner failed: %s' % (sid, (rr.stderr or rr.stdout)[-300:].replace('\n', ' '))
     finally:
         shutil.rmtree(t, ignore_errors=True)
     fired = {p: lines for p, rc, lines in out if rc == 1}
